@@ -28,6 +28,65 @@ const evalSeqLen = 3
 var evalSeqOps = []string{"Automorphism(late key)", "AutomorphismHoisted(late key)", "Automorphism(second late key)",
 	"AutomorphismHoistedLazy+ModDown(late key)", "Relinearize(late rlk)", "Automorphism(key present at creation)"}
 
+// refusedCalls: missing Galois key, missing relinearisation key (when absent), wrong input degree for
+// Relinearize / ApplyEvaluationKey / Automorphism, nil key set is not reachable here. Each must return
+// an error (not panic) and must not modify the receiver.
+func refusedCalls(c *engine.Chooser, what string, p rlwe.Parameters, eval *rlwe.Evaluator, set *rlwe.MemEvaluationKeySet, name, cfg string) bool {
+	snapshot := func(ct *rlwe.Ciphertext) string {
+		h := fmt.Sprintf("%d/%d/%+v", ct.Degree(), ct.Level(), *ct.MetaData)
+		for _, v := range ct.Value {
+			h += fmt.Sprint(engine.Hash(v.Coeffs[0]), engine.Hash(v.Coeffs[len(v.Coeffs)-1]))
+		}
+		return h
+	}
+	type call struct {
+		name string
+		f    func(in, out *rlwe.Ciphertext) error
+		deg  int
+	}
+	missing := uint64(2*p.N() - 3) // a Galois element no key is ever generated for in this scenario
+	if p.RingType() == ring.ConjugateInvariant {
+		missing = p.GaloisElement(5)
+	}
+	calls := []call{
+		{"Automorphism(missing key)", func(in, out *rlwe.Ciphertext) error { return eval.Automorphism(in, missing, out) }, 1},
+		{"AutomorphismHoisted(missing key)", func(in, out *rlwe.Ciphertext) error {
+			return eval.AutomorphismHoisted(in.Level(), in, eval.BuffDecompQP, missing, out)
+		}, 1},
+		{"Relinearize(degree-1 input)", func(in, out *rlwe.Ciphertext) error { return eval.Relinearize(in, out) }, 1},
+		{"Automorphism(degree-2 input)", func(in, out *rlwe.Ciphertext) error { return eval.Automorphism(in, p.GaloisElement(1), out) }, 2},
+		{"ApplyEvaluationKey(degree-2 input)", func(in, out *rlwe.Ciphertext) error {
+			return eval.ApplyEvaluationKey(in, &rlwe.EvaluationKey{GadgetCiphertext: *rlwe.NewGadgetCiphertext(p, 1, p.MaxLevelQ(), p.MaxLevelP(), 0)}, out)
+		}, 2},
+	}
+	if set.RelinearizationKey == nil {
+		calls = append(calls, call{"Relinearize(missing key)", func(in, out *rlwe.Ciphertext) error { return eval.Relinearize(in, out) }, 2})
+	}
+	if _, ok := set.GaloisKeys[missing]; ok {
+		calls = calls[2:]
+	}
+	for k, cl := range calls {
+		in := uniformCt(p, cl.deg, p.MaxLevel(), true, name, cfg, "refused-in", k)
+		out := dirtyReceiver(p, 1, p.MaxLevel(), true, name, cfg, "refused-out", k)
+		before, beforeIn := snapshot(out), snapshot(in)
+		err, pan := uni.Try(func() error { return cl.f(in, out) })
+		if pan != nil {
+			c.Fail("C04/evalseq/refused/"+cl.name+"/panic", "%s: %s panicked instead of returning an error: %v", what, cl.name, pan)
+			return false
+		}
+		if err == nil {
+			c.Fail("C04/evalseq/refused/"+cl.name+"/accepted", "%s: %s returned no error", what, cl.name)
+			return false
+		}
+		if snapshot(out) != before || snapshot(in) != beforeIn {
+			c.Fail("C04/evalseq/refused/"+cl.name+"/receiver-modified", "%s: %s returned an error (%v) but modified its receiver or input", what, cl.name, err)
+			return false
+		}
+		c.Cover("evalseq-refused", cl.name)
+	}
+	return true
+}
+
 // ksig: a known-class signature (marked by a trailing '#') is used as is, otherwise sig+clause.
 func ksig(sig, clause string) string {
 	if strings.HasSuffix(sig, "#") {
@@ -120,6 +179,14 @@ func evalSeqScenario(rt ring.Type, logN int, ch rk.Chain, bound int) engine.Scen
 		}
 		for i, st := range steps {
 			what := fmt.Sprintf("%s step %d", cfg, i)
+			if i == 1 {
+				// Between the first and the second step: every documented refusal. A refused call must
+				// return an error, leave its receiver untouched, and leave the evaluator in a state from
+				// which the next legal call still equals the fresh-evaluator result (judged below).
+				if !refusedCalls(c, what, p, eval, set, name, cfg) {
+					return
+				}
+			}
 			opName := evalSeqOps[st.op]
 			sig := "C04/evalseq/" + opName + "/"
 			known := knownKS(p, kp, st.level, st.isNTT)
